@@ -12,12 +12,8 @@ open ThriftVerif.Wire
 
 /-! ### Equals (gen/equals.go, list.go, set.go, map.go, field.go) -/
 
-/-- Go `==` on primitive values (numeric comparison for doubles). -/
-def primEq : GVal → GVal → Bool
-  | .double a, .double b =>
-    if isNaNBits a || isNaNBits b then false
-    else if isZeroBits a && isZeroBits b then true else a == b
-  | a, b => a == b
+/-- Go `==` on primitive values (numeric comparison for doubles): same as on map keys. -/
+def primEq : GVal → GVal → Bool := keyEq
 
 def bytesOf : GVal → Bytes
   | .bin bs => bs
